@@ -6,7 +6,9 @@ PATCH=$1; shift
 cd /verif
 if ! git -C /repo apply --check "$PATCH" 2>/dev/null; then echo "patch does not apply: $PATCH"; exit 3; fi
 git -C /repo apply "$PATCH"
-trap 'git -C /repo checkout -- . ; rm -rf /verif/replays.seeded.tmp' EXIT
+export VERIF_REPLAY_ROOT=${VERIF_REPLAY_ROOT:-/verif/.run/seeded-replays}
+mkdir -p "$VERIF_REPLAY_ROOT"
+trap 'git -C /repo checkout -- .' EXIT
 for id in "$@"; do
   out=$(VERIF_DIR=/verif ./check "$id" quick 2>&1); rc=$?
   v=$(echo "$out" | grep -c '^VIOLATION')
